@@ -213,21 +213,99 @@ func flagArgs(g *gen, fs flagSpec, arg string, isBool bool) []string {
 	return []string{"--" + name + "=" + arg}
 }
 
-// chooseFlags gives a PRNG subset of the flags; the file tree gets the given values and, for flags not
-// given, the flag's documented default.
-func chooseFlags(g *gen, specs []flagSpec, tree *obj, pGiven int, sig *[]string) []string {
-	var args []string
+// chooseFlagGroups gives a PRNG subset of the flags, one group of arguments per flag (a flag and its
+// value stay together when the command line is permuted); the file tree gets the given values and, for
+// flags not given, the flag's documented default.
+func chooseFlagGroups(g *gen, specs []flagSpec, tree *obj, pGiven int, sig *[]string) [][]string {
+	var groups [][]string
 	for _, fs := range specs {
 		if g.r.Intn(100) < pGiven {
 			tv, arg := genFlagValue(g, fs.Kind)
 			tree.setPath(fs.J, tv)
-			args = append(args, flagArgs(g, fs, arg, fs.Kind == "bool")...)
+			groups = append(groups, flagArgs(g, fs, arg, fs.Kind == "bool"))
 			*sig = append(*sig, fs.Flag)
 		} else if fs.Def != nil {
 			tree.setPath(fs.J, fs.Def)
 		}
 	}
-	return args
+	return groups
+}
+
+func chooseFlags(g *gen, specs []flagSpec, tree *obj, pGiven int, sig *[]string) []string {
+	return flatten(chooseFlagGroups(g, specs, tree, pGiven, sig))
+}
+
+func flatten(groups [][]string) []string {
+	var out []string
+	for _, gr := range groups {
+		out = append(out, gr...)
+	}
+	return out
+}
+
+// flagOrders returns PRNG permutations of the flag groups (the first one is the order as generated).
+func flagOrders(g *gen, groups [][]string, n int) [][][]string {
+	orders := [][][]string{groups}
+	for k := 1; k < n && len(groups) > 1; k++ {
+		p := append([][]string{}, groups...)
+		g.r.Shuffle(len(p), func(i, j int) { p[i], p[j] = p[j], p[i] })
+		orders = append(orders, p)
+	}
+	return orders
+}
+
+// withGroupAt returns the groups with the group that starts with `flagPrefix` moved to the front or the end.
+func withGroupAt(groups [][]string, flagPrefix string, front bool) [][]string {
+	var rest [][]string
+	var hit []string
+	for _, gr := range groups {
+		if hit == nil && strings.HasPrefix(strings.ReplaceAll(gr[0], "-", "_"), strings.ReplaceAll(flagPrefix, "-", "_")) {
+			hit = gr
+			continue
+		}
+		rest = append(rest, gr)
+	}
+	if hit == nil {
+		return groups
+	}
+	if front {
+		return append([][]string{hit}, rest...)
+	}
+	return append(rest, hit)
+}
+
+// judgeOrders: every order of the same flag set must give the structure of the file form.
+// eval returns the differences against the file form (or an error when the command line is refused).
+func judgeOrders(c *h.Case, who string, lead []string, orders [][][]string, eval func(args []string) ([]string, error), fileText, f string) {
+	type res struct {
+		args []string
+		d    []string
+	}
+	var good, bad []res
+	for _, o := range orders {
+		args := append(append([]string{}, lead...), flatten(o)...)
+		d, err := eval(args)
+		run.Count("flag_orders_parsed", 1)
+		if err != nil {
+			c.Violation(who+"-flags-rejected", "%s command line %q rejected: %v", who, args, err)
+			return
+		}
+		if len(d) == 0 {
+			good = append(good, res{args, d})
+		} else {
+			bad = append(bad, res{args, d})
+		}
+	}
+	if len(bad) == 0 {
+		return
+	}
+	c.Ev("doc", "text", fileText)
+	if len(good) > 0 {
+		c.Violation(who+"-flag-order-changes-result-"+pathKey(bad[0].d[0]), "the same %s flags in another order yield another structure: %q agrees with the file form, %q does not (file != flags): %s\nfile (%s):\n%s",
+			who, good[0].args, bad[0].args, strings.Join(bad[0].d, "; "), f, short(fileText))
+		return
+	}
+	c.Violation(who+"-flag-differs-from-file-"+pathKey(bad[0].d[0]), "%s %q yields a different structure than the same settings in a file (file != flags): %s\nfile (%s):\n%s", who, bad[0].args, strings.Join(bad[0].d, "; "), f, short(fileText))
 }
 
 func quietCmd(cmd *cobra.Command) {
@@ -328,29 +406,29 @@ func flagCase(c *h.Case) {
 	switch c.Idx % 3 {
 	case 0: // frps
 		tree := &obj{}
-		args := chooseFlags(g, serverFlags, tree, pGiven, &sig)
+		groups := chooseFlagGroups(g, serverFlags, tree, pGiven, &sig)
 		// dashboard tls: three flags, one setting
 		tlsMode := g.r.Intn(3)
 		if tlsMode > 0 {
-			args = append(args, "--dashboard_tls_cert_file=./web.crt", "--dashboard_tls_key_file", "./web.key")
+			groups = append(groups, []string{"--dashboard_tls_cert_file=./web.crt"}, []string{"--dashboard_tls_key_file", "./web.key"})
 			sig = append(sig, "dashboard_tls_cert_file", "dashboard_tls_key_file")
 			if tlsMode == 2 {
-				args = append(args, "--dashboard_tls_mode=true")
+				groups = append(groups, []string{"--dashboard_tls_mode=true"})
 				sig = append(sig, "dashboard_tls_mode")
 				tree.setPath("webServer.tls.certFile", "./web.crt")
 				tree.setPath("webServer.tls.keyFile", "./web.key")
 			} else if g.r.Intn(2) == 0 {
-				args = append(args, "--dashboard_tls_mode=false")
+				groups = append(groups, []string{"--dashboard_tls_mode=false"})
 				sig = append(sig, "dashboard_tls_mode=false")
 			}
 		}
-		c.Data["args"] = args
-		c.Data["file"] = plain(tree)
-		got, ran, err := frpsCommand(args)
-		if err != nil || !ran {
-			c.Violation("frps-flags-rejected", "frps command line %q rejected: %v", args, err)
-			return
+		g.r.Shuffle(len(groups), func(i, j int) { groups[i], groups[j] = groups[j], groups[i] })
+		orders := flagOrders(g, groups, 3)
+		if tlsMode > 0 { // the multi-flag setting: the mode flag before and after the flags it cooperates with
+			orders = append(orders, withGroupAt(groups, "--dashboard_tls_mode", true), withGroupAt(groups, "--dashboard_tls_mode", false))
 		}
+		c.Data["args"] = flatten(groups)
+		c.Data["file"] = plain(tree)
 		f := formats[g.r.Intn(3)]
 		text := render(f, tree, g.r)
 		p, werr := writeCfg(c, text, f)
@@ -365,21 +443,24 @@ func flagCase(c *h.Case) {
 			return
 		}
 		run.Count("flag_sets_frps", 1)
-		if d := diffValues(want, got); len(d) > 0 {
-			c.Ev("doc", "text", text)
-			c.Violation("frps-flag-differs-from-file-"+pathKey(d[0]), "frps %q yields a different structure than the same settings in a file (file != flags): %s\nfile (%s):\n%s", args, strings.Join(d, "; "), f, short(text))
-		}
+		judgeOrders(c, "frps", nil, orders, func(args []string) ([]string, error) {
+			got, ran, err := frpsCommand(args)
+			if err != nil || !ran {
+				return nil, fmt.Errorf("ran=%v: %v", ran, err)
+			}
+			return diffValues(want, got), nil
+		}, text, f)
 	default: // frpc <type> [visitor]
 		typ := proxyTypes[g.r.Intn(len(proxyTypes))]
 		visitor := c.Idx%3 == 2 && (typ == "stcp" || typ == "sudp" || typ == "xtcp") && g.r.Intn(2) == 0
 		tree := &obj{}
-		args := chooseFlags(g, clientCommonFlags, tree, pGiven, &sig)
+		groups := chooseFlagGroups(g, clientCommonFlags, tree, pGiven, &sig)
 		item := &obj{}
-		var iargs []string
+		var igroups [][]string
 		if visitor {
-			iargs = chooseFlags(g, visitorFlags, item, pGiven, &sig)
+			igroups = chooseFlagGroups(g, visitorFlags, item, pGiven, &sig)
 		} else {
-			iargs = chooseFlags(g, concat2(proxyBaseFlags, proxyTypeFlags[typ]), item, pGiven, &sig)
+			igroups = chooseFlagGroups(g, concat2(proxyBaseFlags, proxyTypeFlags[typ]), item, pGiven, &sig)
 		}
 		item.set("type", typ)
 		if _, ok := item.get("name"); !ok {
@@ -390,23 +471,18 @@ func flagCase(c *h.Case) {
 		} else {
 			tree.set("proxies", []any{item})
 		}
-		// flags of the sub-command may come before or after the common ones
-		all := []string{typ}
+		// the command names come first; flags of the sub-command and the common ones in any order
+		lead := []string{typ}
 		if visitor {
-			all = append(all, "visitor")
+			lead = append(lead, "visitor")
 		}
 		if g.r.Intn(2) == 0 {
-			all = append(append(all, args...), iargs...)
+			groups = append(groups, igroups...)
 		} else {
-			all = append(append(all, iargs...), args...)
+			groups = append(igroups, groups...)
 		}
-		c.Data["args"] = all
+		c.Data["args"] = append(append([]string{}, lead...), flatten(groups)...)
 		c.Data["file"] = plain(tree)
-		common, pc, vc, ran, err := frpcCommand(typ, all)
-		if err != nil || (visitor && ran != "visitor") || (!visitor && ran != "proxy") {
-			c.Violation("frpc-flags-rejected", "frpc command line %q rejected (ran=%q): %v", all, ran, err)
-			return
-		}
 		f := formats[g.r.Intn(3)]
 		text := render(f, tree, g.r)
 		p, werr := writeCfg(c, text, f)
@@ -420,26 +496,24 @@ func flagCase(c *h.Case) {
 			c.Violation("clean-document-rejected-"+f, "file equivalent of a frpc command line rejected: %v\n%s", err, short(text))
 			return
 		}
+		if (visitor && len(wv) != 1) || (!visitor && len(wp) != 1) {
+			run.Inconclusive("file side lost the proxy or visitor")
+			return
+		}
 		run.Count("flag_sets_frpc", 1)
-		var d []string
-		d = append(d, diffValues(wc, common)...)
-		if visitor {
-			if len(wv) != 1 {
-				run.Inconclusive("file side lost the visitor")
-				return
+		judgeOrders(c, "frpc", lead, flagOrders(g, groups, 3), func(args []string) ([]string, error) {
+			common, pc, vc, ran, err := frpcCommand(typ, args)
+			if err != nil || (visitor && ran != "visitor") || (!visitor && ran != "proxy") {
+				return nil, fmt.Errorf("ran=%q: %v", ran, err)
 			}
-			d = append(d, diffValues(wv[0], vc)...)
-		} else {
-			if len(wp) != 1 {
-				run.Inconclusive("file side lost the proxy")
-				return
+			d := diffValues(wc, common)
+			if visitor {
+				d = append(d, diffValues(wv[0], vc)...)
+			} else {
+				d = append(d, diffValues(wp[0], pc)...)
 			}
-			d = append(d, diffValues(wp[0], pc)...)
-		}
-		if len(d) > 0 {
-			c.Ev("doc", "text", text)
-			c.Violation("frpc-flag-differs-from-file-"+pathKey(d[0]), "frpc %q yields a different structure than the same settings in a file (file != flags): %s\nfile (%s):\n%s", all, strings.Join(d, "; "), f, short(text))
-		}
+			return d, nil
+		}, text, f)
 	}
 	run.Distinct("flags|" + fmt.Sprint(c.Idx%3) + "|" + strings.Join(sig, ","))
 	if c.Idx == 300001 {
